@@ -94,8 +94,10 @@ OnValue(cv, v, toks, i, s) ==
     ELSE IF v.sub # "" THEN
         \* the sub-command is parsed from the remaining tokens, classified afresh
         \* (OpenDashDashParent: after a `--` given to the parent this is left open)
+        \* (open only if a remaining token would be read differently as a plain value)
         [s EXCEPT !.sub = <<ParseEnum(cv, v.sub, t, SubSeq(toks, i + 1, Len(toks)))>>,
-                  !.done = TRUE, !.open = s.open \/ s.vo]
+                  !.done = TRUE,
+                  !.open = s.open \/ (s.vo /\ \E j \in (i + 1)..Len(toks) : Len(toks[j]) > 1 /\ toks[j][1] = DASH)]
     ELSE LET k == NthPos(v, s.pos + 1, 1, 0) IN
          IF k = 0 THEN [s EXCEPT !.err = <<Err("unexpected-arg", t, "", FALSE)>>]
          ELSE LET c == Convert(cv, t, v.args[k].ty) IN
